@@ -437,6 +437,12 @@ def _family_grid(positions):
             for kind in ("scenario_name", "feature_name", "fail_msg"):
                 for a in (RUNTIME_ATOMS if kind == "fail_msg" else NAME_ATOMS):
                     yield _mini(kind, "x%sy" % a)
+            # many invalid characters in one text (a replacement that stops after N occurrences must not pass)
+            yield _mini("fail_msg", u"x" + u"\x01\x02" * 21 + u"y")
+            yield _mini("fail_msg", u"\x08" * 70)
+        if "stdout" in positions:
+            yield grid_case("stdout", u"a" + u"\x08" * 40 + u"b", scratch)
+            yield grid_case("stderr", u"\x0b\x0c" * 25, scratch)
         for position in positions:
             atoms = RUNTIME_ATOMS if position in RUNTIME_POSITIONS else NAME_ATOMS
             if position in NOSPACE_POSITIONS:
